@@ -8,8 +8,10 @@ import (
 	"math/rand"
 	"os"
 	"reflect"
+	"sort"
 
 	"verif/harness/proj"
+	"verif/harness/tlaval"
 )
 
 func init() {
@@ -180,6 +182,19 @@ func emptyMapsAsLists(v any) any {
 		out := make([]any, len(x))
 		for i, e := range x {
 			out[i] = emptyMapsAsLists(e)
+		}
+		return out
+	case tlaval.Set: // JSON has no sets: a sorted array (ToJson of a TLA+ set is an array too)
+		strs := make([]string, len(x.Elems))
+		byStr := map[string]any{}
+		for i, e := range x.Elems {
+			strs[i] = tlaval.Format(e)
+			byStr[strs[i]] = e
+		}
+		sort.Strings(strs)
+		out := make([]any, len(strs))
+		for i, k := range strs {
+			out[i] = emptyMapsAsLists(byStr[k])
 		}
 		return out
 	}
